@@ -148,6 +148,9 @@ LEMMAS = [
     Lemma("digits-length", _digits_length, "len(digits(v, L, n)) == max(n, 0)"),
 ]
 
+from contracts import c06_pwd  # noqa: E402
+
+CONTRACTS += c06_pwd.CONTRACTS
 BOUNDED = [Bounded("c06", "harness/c06.py", descr="exhaustive small draws through the real helpers; salt sizes/alphabets; pwd entropy")]
 
 MUTANTS = [
@@ -160,3 +163,4 @@ MUTANTS = [
     ("getrandbytes harmless rename", U, "            yield value & 0xFF\n            value >>= 8\n", "            b = value & 0xFF\n            yield b\n            value = value >> 8\n", "hold"),
     ("getrandstr harmless for-range", U, "            value //= letters\n            i += 1\n", "            value = value // letters\n            i = i + 1\n", "hold"),
 ]
+MUTANTS += c06_pwd.MUTANTS
